@@ -464,6 +464,36 @@ def run(ctx):
         nl += 1
         C.check(ok, 'C09-FLOW-progress', 'merge_element|loop#%d' % nl, 'a cycle of the pairwise merge walk advances neither iterator (hang on load)', me.where((h, 0)), sample={'fn': 'merge_element', 'loop_exit_vars': ev} if nl == 1 else None)
     C.floor('C09-FLOW-progress.loops', nl, 1)
+    # the elements that only the new file has are placed by the rules of THAT file's version (they come from a document that was valid
+    # in it); the version shared with the files already loaded decides the split points, not what the new file may contain
+    me_ = P.get('AutosarModel::merge_element')
+    imp_ = calls(me_, r'AutosarModel>::import_new_items$')
+    okv = False
+    if imp_:
+        t_ = me_.blocks[imp_[0][0]]['term']
+        va = [a for a in t_['args'] if is_local_op(a) and 'AutosarVersion' in (me_.local_ty(a['l']) or '')]
+        if va:
+            from flow import source_locals as _sl9
+            n_, c_, f_ = deep_sources(me_, va[0], depth=14)
+            wf = {l for l in range(1, me_.argc + 1) if 'WeakArxmlFile' in (me_.local_ty(l) or '') and 'HashSet' not in (me_.local_ty(l) or '')}
+            hs = {l for l in range(1, me_.argc + 1) if 'HashSet' in (me_.local_ty(l) or '')}
+            sl = _sl9(me_, va[0], depth=14)
+            okv = not any(re.search(r'::min$|::min_by\w*$|::max$', c or '') for c in c_) and any(c.endswith('::version') for c in c_) and not (sl & hs)
+    C.rule('C09-MUST-importversion', 'merge_element hands import_new_items the version of the incoming file (derived from the new-file parameter alone, not the minimum over all files)')
+    C.check(okv, 'C09-MUST-importversion', 'merge_element|import-uses-the-version-of-the-new-file', 'the elements that only the new file contains are positioned by a version other than the version of that file (e.g. the minimum over all loaded files): '
+            'an element kind that exists only in the newer file\'s version is rejected (InvalidFileMerge) when the older file was loaded first, and accepted in the opposite order', me_.where(imp_[0]) if imp_ else '',
+            sample={'fn': 'merge_element', 'arg': 'import_new_items(.., version of new_file)'})
+    # the root element is replaced only when the model has no file yet (not: when the root happens to be empty - an earlier file may
+    # consist of the root alone and would lose its attribution)
+    lb_ = P.get('AutosarModel::load_buffer_internal')
+    from c03 import root_replacements
+    rr_ = root_replacements(lb_)
+    em_ = [pos for pos, t in lb_.iter_calls() if call_matches(t, r'Vec::<T, A>::is_empty$|<impl \[T\]>::is_empty$|Vec::<T, A>::len$') and 'AutosarModelRaw.files' in deep_sources(lb_, t['args'][0], depth=10)[2]]
+    from pairing import guarded_by_true as _gbt
+    C.rule('C09-MUST-firstfile', 'load_buffer_internal replaces the root element only on the true edge of "the model has no files"')
+    C.check(bool(rr_) and bool(em_) and all(any(_gbt(lb_, r_, e_) for e_ in em_) for r_ in rr_), 'C09-MUST-firstfile', 'load_buffer_internal|root-replaced-only-for-the-first-file', 'load_buffer_internal replaces the root element under a condition other than "the model has no files yet": '
+            'a file loaded earlier (e.g. one that consists of the root element alone) stays in files() but is attributed to nothing, and the result depends on the load order', lb_.where(rr_[0]) if rr_ else '',
+            sample={'fn': 'load_buffer_internal', 'guard': 'files.is_empty()'})
     # every file is written with ITS OWN version: the root element (and its schema location) is shared by all files of the model, so the
     # header is refreshed from the file's version inside serialize(), on every path - not where some file's version last changed
     C.rule('C09-MUST-header', 'ArxmlFile::serialize rewrites the schema location of the shared root element from the version of the file being written, on every path before the text is produced (shared with C17-MUST-header)')
